@@ -46,8 +46,8 @@ NoSOACeiling == 600          \* noSOATTLCeiling
 
 (* ------------------------------------------------------------------ *)
 (* configuration: which Pref64 prefixes are configured                 *)
-Cfgs == {"wkp", "op", "both"}
-PrefixesOf(c) == CASE c = "wkp" -> <<"wkp">> [] c = "op" -> <<"op">> [] c = "both" -> <<"wkp", "op">>
+Cfgs == {"wkp", "op", "both", "both2"}   \* both2: the operator prefix is listed before the well-known one
+PrefixesOf(c) == CASE c = "wkp" -> <<"wkp">> [] c = "op" -> <<"op">> [] c = "both" -> <<"wkp", "op">> [] c = "both2" -> <<"op", "wkp">>
 
 (* client query *)
 Queries ==
@@ -65,7 +65,7 @@ Wrapped(q) == GatePass(q) /\ q.qtype = "AAAA" /\ q.zone = 0
    u and suffix zero, whose IPv4 is not excluded under the well-known prefix.
    The driver builds the name under the first configured prefix. *)
 PtrTranslated(q, c) ==
-  GatePass(q) /\ q.qtype = "PTR" /\ (q.ptr = "under" \/ (q.ptr = "underExcl" /\ c = "op"))
+  GatePass(q) /\ q.qtype = "PTR" /\ (q.ptr = "under" \/ (q.ptr = "underExcl" /\ c \in {"op", "both2"}))
 
 (* ------------------------------------------------------------------ *)
 (* reply of the rest of the chain to the AAAA query                     *)
